@@ -318,9 +318,10 @@ func c02Probes(a ast.AuthContent) []ast.Rule {
 	return out
 }
 
-// c02LimitRefusal: the parent is refused because its LAST block exceeds a deterministic run limit
-// (fact count or iteration count, never a clock); appending a harmless block must not make it
-// accepted.
+// c02LimitRefusal: the parent is refused because its authority block or its LAST block exceeds a
+// deterministic run limit (fact count or iteration count, never a clock), fails while its rules
+// are applied (division by zero), or carries a false check made of an expression only; appending
+// a harmless block (used in memory or re-loaded) must not make it accepted.
 func c02LimitRefusal(c *core.C) {
 	r := c.R
 	n := 6 + r.Intn(6)
@@ -332,11 +333,33 @@ func c02LimitRefusal(c *core.C) {
 		heavy = ast.Block{Facts: []ast.Pred{ast.P("step0")}, Rules: rules}
 		opt = biscuit.WithWorldOptions(datalog.WithMaxFacts(100000), datalog.WithMaxIterations(5), datalog.WithMaxDuration(60*time.Second))
 	}
+	switch c.Idx / 5 % 4 {
+	case 2:
+		// an expression that fails on every binding (division by zero) while the rule is applied
+		kind = "run-error"
+		heavy = ast.Block{Facts: []ast.Pred{ast.P("quota", ast.Int(10))}, Rules: []ast.Rule{{Head: ast.P("share", vX), Body: []ast.Pred{ast.P("quota", vX)},
+			Exprs: []ast.Expr{{ast.OV(vX), ast.OV(ast.Int(0)), ast.OB(int(ast.BDiv)), ast.OV(ast.Int(1)), ast.OB(int(ast.BEqual))}}}}}
+		opt = lib.BigLimits()
+	case 3:
+		// a check made of an expression only, which is false
+		kind = "false-expression-only-check"
+		heavy = ast.Block{Checks: []ast.Check{{Queries: []ast.Rule{{Head: ast.P("query"), Exprs: []ast.Expr{{ast.OV(ast.Int(2)), ast.OV(ast.Int(1)), ast.OB(int(ast.BLessThan))}}}}}}}
+		opt = lib.BigLimits()
+	}
+	// the refusing part sits in the authority block or in the parent's last block
+	inAuthority := c.Idx/20%2 == 1
 	blocks := []ast.Block{{Facts: factsP(n)}}
+	if inAuthority {
+		blocks[0].Facts = append(blocks[0].Facts, heavy.Facts...)
+		blocks[0].Rules, blocks[0].Checks = heavy.Rules, heavy.Checks
+		kind += "-in-authority"
+	}
 	for k, m := 0, r.Intn(2); k < m; k++ {
 		blocks = append(blocks, ast.Block{Facts: []ast.Pred{ast.P("note", ast.Int(int64(k)))}})
 	}
-	blocks = append(blocks, heavy)
+	if !inAuthority {
+		blocks = append(blocks, heavy)
+	}
 	parent, err := buildScenarioToken(c.Seed, fmt.Sprintf("c02-lim-%d", c.Idx), blocks)
 	if err != nil {
 		c.Violate("build-refused", err.Error(), nil)
@@ -390,9 +413,9 @@ func c02LimitRefusal(c *core.C) {
 		c.Eval(1)
 		desc := map[string]any{"source": "limit-refusal/" + kind, "token": gen.Texts(parent.Blocks), "appended": gen.Texts([]ast.Block{h})[0], "parent": pc, "parent_error": pe, "child": cc, "child_error": ce}
 		if pc != lib.OK && cc == lib.OK {
-			c.Violate("attenuation-widened/limit-refusal-"+kind, fmt.Sprintf("the parent is refused by a run limit (%s); appending a harmless block makes it accepted", pe), desc)
+			c.Violate("attenuation-widened/limit-refusal-"+kind, fmt.Sprintf("the parent is refused (%s: %s); appending a harmless block makes it accepted", kind, pe), desc)
 		}
-		if pc == lib.LIMIT {
+		if pc != lib.OK {
 			c.NT(core.JSON(desc))
 			c.Count("limit_refusal_pairs", 1)
 		}
@@ -400,7 +423,7 @@ func c02LimitRefusal(c *core.C) {
 }
 
 func c02Run(c *core.C) {
-	if c.Idx%10 == 9 {
+	if c.Idx%5 == 4 {
 		c02LimitRefusal(c)
 		return
 	}
@@ -513,8 +536,67 @@ func c02Run(c *core.C) {
 
 // ---- C03 ---------------------------------------------------------------------------------
 
+// c03SharedTerms: the authority block holds facts with set terms; a check-free block in the
+// middle applies intersection / union / contains to them in a rule; a later block's check and the
+// authorizer's queries look inside the same sets. Whatever the middle block computes, the sets
+// everybody else sees are the ones the authority block stated.
+func c03SharedTerms(c *core.C) {
+	r := c.R
+	strs := []ast.Term{ast.Str("alpha"), ast.Str("beta"), ast.Str("gamma"), ast.Str("delta")}
+	r.Shuffle(len(strs), func(i, j int) { strs[i], strs[j] = strs[j], strs[i] })
+	whole := ast.SetOf(strs[0], strs[1], strs[2])
+	nums := ast.SetOf(ast.Int(3), ast.Int(1), ast.Int(2))
+	sv, nv := ast.Var("s"), ast.Var("n")
+	auth := ast.Block{Facts: []ast.Pred{ast.P("allowed", whole), ast.P("nums", nums)}}
+	ops := []int{int(ast.BIntersection), int(ast.BUnion)}
+	op := ops[r.Intn(2)]
+	// the operand keeps an element that is not the first one, so that the result is no prefix
+	part := ast.SetOf(strs[1+r.Intn(2)])
+	npart := ast.SetOf(ast.Int(int64(1 + r.Intn(2))))
+	free := ast.Block{Rules: []ast.Rule{
+		{Head: ast.P("seen", sv), Body: []ast.Pred{ast.P("allowed", sv)}, Exprs: []ast.Expr{{ast.OV(sv), ast.OV(part), ast.OB(op), ast.OU(int(ast.ULength)), ast.OV(ast.Int(0)), ast.OB(int(ast.BGreaterOrEqual))}}},
+		{Head: ast.P("seen_n", nv), Body: []ast.Pred{ast.P("nums", nv)}, Exprs: []ast.Expr{{ast.OV(nv), ast.OV(npart), ast.OB(op), ast.OU(int(ast.ULength)), ast.OV(ast.Int(0)), ast.OB(int(ast.BGreaterOrEqual))}}},
+	}}
+	if r.Intn(2) == 0 {
+		free.Facts = []ast.Pred{ast.P("note", ast.Int(1))}
+	}
+	asking := ast.Block{Checks: []ast.Check{
+		{Queries: []ast.Rule{{Head: ast.P("query"), Body: []ast.Pred{ast.P("allowed", sv)}, Exprs: []ast.Expr{{ast.OV(sv), ast.OV(strs[0]), ast.OB(int(ast.BContains))}}}}},
+		{Queries: []ast.Rule{{Head: ast.P("query"), Body: []ast.Pred{ast.P("nums", nv)}, Exprs: []ast.Expr{{ast.OV(nv), ast.OU(int(ast.ULength)), ast.OV(ast.Int(3)), ast.OB(int(ast.BEqual))}}}}},
+	}}
+	a := ast.AuthContent{Policies: []ast.Policy{allowAll}}
+	probes := []ast.Rule{{Head: ast.P("probe_allowed", sv), Body: []ast.Pred{ast.P("allowed", sv)}}, {Head: ast.P("probe_nums", nv), Body: []ast.Pred{ast.P("nums", nv)}}}
+	without, err1 := buildScenarioToken(c.Seed, fmt.Sprintf("c03s-%d-a", c.Idx), []ast.Block{auth, asking})
+	with, err2 := buildScenarioToken(c.Seed, fmt.Sprintf("c03s-%d-b", c.Idx), []ast.Block{auth, free, asking})
+	if err1 != nil || err2 != nil {
+		c.Violate("build-refused", fmt.Sprint(err1, err2), nil)
+		return
+	}
+	if r.Intn(2) == 0 {
+		if t2, err := with.Reload(); err == nil {
+			with = t2
+		}
+	}
+	wo := lib.Observe(without.B, without.Pub, a, probes)
+	wi := lib.Observe(with.B, with.Pub, a, probes)
+	c.Eval(2)
+	desc := map[string]any{"token_without": gen.Texts(without.Blocks), "check_free_block": gen.Texts([]ast.Block{free})[0], "without": wo, "with": wi}
+	if wo.Class != lib.OK {
+		c.Violate("shared-terms-control", fmt.Sprintf("control token refused: %s %s", wo.Class, wo.Err), desc)
+		return
+	}
+	if wi.Class != wo.Class {
+		c.Violate("check-free-block-changes-outcome/shared-set-term", fmt.Sprintf("outcome %s without the block, %s with it", wo.Class, wi.Class), desc)
+	} else if core.JSON(wi.Queries) != core.JSON(wo.Queries) {
+		c.Violate("check-free-block-changes-query-results/shared-set-term", "authorizer query results differ with a check-free block that computes on the authority block's sets", desc)
+	}
+	c.Count("shared_set_term_pairs", 1)
+	c.NT("shared-terms/" + core.JSON(desc["check_free_block"]) + whole.Key())
+}
+
 func c03Run(c *core.C) {
 	r := c.R
+	c03SharedTerms(c)
 	for rep := 0; rep < 4; rep++ {
 		s := gen.NewScenario(r, 3, scenOpts)
 		a := s.Auth
